@@ -55,6 +55,9 @@ pub struct Shape {
     pub order: Vec<usize>,        // variable decided at layer l
     pub depth_free: bool,
     pub impacted: Option<Vec<Vec<bool>>>, // [layer][base]
+    /// state-wise irrelevance (C12 only: the union merge is NOT a sound relaxation here): [layer][mask] -> the whole
+    /// mask is not impacted by the layer's variable (neutral default decision only, state unchanged, cost 0)
+    pub skip: Option<Vec<Vec<bool>>>,
     pub bonus: bool,
     pub sym: Vec<Vec<Vec<bool>>>, // which costs are symbolic
     pub conc: Vec<Vec<Vec<i64>>>, // concrete value of the others
@@ -72,6 +75,7 @@ pub struct GenParams {
     pub perm: bool,
     pub nsym: usize, // max number of symbolic arc costs (usize::MAX = all)
     pub setnext: bool,
+    pub statewise: bool,
 }
 
 impl Shape {
@@ -149,7 +153,20 @@ impl Shape {
                 }
             }
         }
-        Shape { n: p.n, b: p.b, d: p.d, next, root, order, depth_free: p.depth_free, impacted, bonus: p.bonus, sym, conc }
+        let skip = if p.statewise {
+            // own stream: the rest of the structure must not depend on `statewise`
+            let mut r3 = Rng(p.seed ^ 0x57a7e_715e);
+            let mut v = vec![vec![false; 1 << p.b]; p.n];
+            for l in 0..p.n {
+                for m in 1..(1usize << p.b) {
+                    v[l][m] = r3.chance(1, 3);
+                }
+            }
+            Some(v)
+        } else {
+            None
+        };
+        Shape { n: p.n, b: p.b, d: p.d, next, root, order, depth_free: p.depth_free, impacted, skip, bonus: p.bonus, sym, conc }
     }
     /// reachable exact masks per layer (concrete, cost independent)
     pub fn reach(&self) -> Vec<Vec<u32>> {
@@ -157,6 +174,12 @@ impl Shape {
         for l in 0..self.n {
             let mut nx: Vec<u32> = vec![];
             for &m in layers[l].iter() {
+                if self.skips(l, m) {
+                    if !nx.contains(&m) {
+                        nx.push(m);
+                    }
+                    continue;
+                }
                 for d in 0..=self.d {
                     let mut out = 0u32;
                     for b in 0..self.b {
@@ -272,6 +295,12 @@ impl Shape {
     pub fn layer_of_var(&self, v: usize) -> usize {
         self.order.iter().position(|x| *x == v).unwrap()
     }
+    pub fn skips(&self, l: usize, m: u32) -> bool {
+        match &self.skip {
+            Some(v) => l < v.len() && (m as usize) < v[l].len() && v[l][m as usize],
+            None => false,
+        }
+    }
     pub fn is_impacted_base(&self, l: usize, b: usize) -> bool {
         match &self.impacted {
             Some(v) => v[l][b],
@@ -293,6 +322,10 @@ impl Shape {
                 s.push(')');
             }
             s.push(']');
+        }
+        if let Some(sk) = &self.skip {
+            let v: Vec<Vec<usize>> = sk.iter().map(|r| r.iter().enumerate().filter(|(_, x)| **x).map(|(m, _)| m).collect()).collect();
+            s.push_str(&format!(" statewise_skip_masks={:?}", v));
         }
         if let Some(imp) = &self.impacted {
             s.push_str(&format!(" impacted={:?}", imp));
@@ -365,10 +398,16 @@ impl Table {
     }
     /// is the mask impacted by the variable of layer l
     pub fn impacted_mask(&self, l: usize, m: u32) -> bool {
+        if self.sh.skip.is_some() {
+            return !self.sh.skips(l, m);
+        }
         Self::members(m).any(|b| self.sh.is_impacted_base(l, b))
     }
     /// decisions available for mask m at layer l: 0..D-1 regular, D = neutral default
     pub fn domain(&self, l: usize, m: u32) -> Vec<usize> {
+        if self.sh.skips(l, m) {
+            return vec![self.sh.d];
+        }
         let mut out = vec![];
         for d in 0..self.sh.d {
             if Self::members(m).any(|b| self.sh.is_impacted_base(l, b) && self.sh.next[l][b][d] != 0) {
@@ -381,6 +420,9 @@ impl Table {
         out
     }
     pub fn trans(&self, l: usize, m: u32, d: usize) -> u32 {
+        if self.sh.skips(l, m) {
+            return if d == self.sh.d { m } else { 0 };
+        }
         let mut out = 0;
         for b in Self::members(m) {
             if self.sh.is_impacted_base(l, b) {
@@ -410,6 +452,10 @@ impl Table {
     }
     /// cost of arc (l, m) --d--> dst ; `dst` only matters for the bonus
     pub fn arc_cost(&self, l: usize, m: u32, d: usize, dst: u32) -> Cost {
+        if self.sh.skips(l, m) {
+            assert!(d == self.sh.d, "arc_cost on an arc that does not exist (state-wise skip)");
+            return Cost::lit(0);
+        }
         let mut acc: Option<Cost> = None;
         for b in Self::members(m) {
             let c = if self.sh.is_impacted_base(l, b) {
